@@ -1,7 +1,16 @@
 // interactive object of the C05 cases
 #include "/include/vcommon.h"
 string oid = "?";
-void create () { seteuid (getuid ()); }
+void create () { seteuid (getuid ()); enable_commands (); add_action ("dogo", "go"); }
 void set_oid (string s) { oid = s; "/vreg"->reg (s, this_object ()); }
 void cb (string s) { VL ("cb " + s); }
-string process_input (string s) { return s; }
+// a command line taken by the backend's process_user_command(): "go" evaluates the program under test
+mixed process_input (string s) { if (s == "go") { "/c05/gen/t"->run (); return 1; } return s; }
+// a command that no add_action() handles: user_parser() calls notify_no_command(), which calls the function given to
+// notify_fail() with command_giver pushed on the command_giver save stack; the program under test supplies its body
+int nf () { VL ("say nf"); "/c05/gen/t"->nfbody (); return 0; }
+// (notify_fail() stores the function in the interactive command_giver: make that this object, whoever called)
+int failcmd () { VL ("say set-cg"); enable_commands (); notify_fail ((: nf :)); return command ("xyzzy"); }
+// a command with a verb: user_parser() sets last_verb (query_verb()) around the call; the program under test supplies the body
+int dogo (string a) { VL ("say dogo"); "/c05/gen/t"->gobody (); return 1; }
+int gocmd () { return command ("go"); }
